@@ -29,11 +29,11 @@ func VerifC09_Diff() {
 	now := vrtCmdInstant(h, "now")
 	vrtCmdAssumeClock(h, now)
 	vrt.SetClock(uint32(now))
+	aid := vrtArchiveChoice(na)
 	simg, _ := vrtCmdInvImage(h, "s", now)
-	dimg, _ := vrtCmdInvImage(h, "d", now)
+	dimg := vrtCmdSecondImage(h, "d", now, aid == ArchiveIDAll && na > 1)
 	sp := vrt.TempFile("src/a.wsp", simg)
 	dp := vrt.TempFile("dst/a.wsp", dimg)
-	aid := vrtArchiveChoice(na)
 	from := vrtCmdInstant(h, "from")
 	vrt.Assume(from <= now)
 	c := &DiffCommand{SrcBase: filepath.Dir(sp), DestBase: filepath.Dir(dp), SrcRelPath: "a.wsp", ArchiveID: aid, From: from}
